@@ -236,6 +236,8 @@ def oracle(ctx):
     backward_options_probe(ctx)
     operator_reuse_probe(ctx)
     operator_history_probe(ctx)
+    nested_sum_names_probe(ctx)
+    substituted_forward_probe(ctx)
 
 
 def operator_reuse_probe(ctx):
@@ -342,6 +344,99 @@ def operator_history_probe(ctx):
                     ctx.fail("oracle", "solvegrad:operator-history:%s" % ("first-order" if bad[0] == 0 else "second-order"), info,
                              {"max_diff": [float((a - r).abs().max()) for a, r in zip(got, ref)]}, "the dense reference, whatever ran before")
                     break
+
+
+def nested_sum_names_probe(ctx):
+    """sums of several matrix-free operators of ONE class (their parameters have the same attribute name): every operand's tensor
+    reaches the backward pass under its own prefixed name (round-4 seeds C02/12, C06/12: the prefix of the right operand of a sum)"""
+    import xitorch as xt
+    from xitorch.linalg import solve
+
+    class P(xt.LinearOperator):
+        def __init__(self, w):
+            super().__init__(shape=w.shape, is_hermitian=False, dtype=w.dtype, device=w.device)
+            self.w = w
+
+        def _mv(self, x):
+            return torch.matmul(self.w, x.unsqueeze(-1)).squeeze(-1)
+
+        def _getparamnames(self, prefix=""):
+            return [prefix + "w"]
+    g = torch.Generator().manual_seed(ctx.seed + 113)
+    n = 4
+    for shape_name, build in (("(p1 + p2) + p3", lambda a, b, c: (P(a) + P(b)) + P(c)), ("p1 + (p2 - p3)", lambda a, b, c: P(a) + (P(b) - P(c))),
+                              ("(p1 - p2) @ p3", lambda a, b, c: (P(a) - P(b)).matmul(P(c)))):
+        for meth in ("custom_exactsolve", "bicgstab"):
+            ws = [(0.2 * torch.randn(n, n, dtype=torch.float64, generator=g) + (2.0 if i == 0 else 0.0) * torch.eye(n, dtype=torch.float64)).requires_grad_()
+                  for i in range(3)]
+            if "@" in shape_name:
+                with torch.no_grad():
+                    ws[2].add_(torch.eye(n, dtype=torch.float64))
+            Bv = torch.randn(n, 2, dtype=torch.float64, generator=g)
+            dense = {"(p1 + p2) + p3": lambda: ws[0] + ws[1] + ws[2], "p1 + (p2 - p3)": lambda: ws[0] + ws[1] - ws[2],
+                     "(p1 - p2) @ p3": lambda: (ws[0] - ws[1]) @ ws[2]}[shape_name]
+            kw = dict(method=meth, bck_options=dict(method=meth))
+            if meth == "bicgstab":
+                kw.update(rtol=1e-13, atol=1e-15)
+                kw["bck_options"].update(rtol=1e-13, atol=1e-15)
+            try:
+                with warnings.catch_warnings():
+                    warnings.simplefilter("ignore")
+                    X = solve(build(*ws), Bv, **kw)
+                    got = torch.autograd.grad((X * X).sum(), ws, allow_unused=True)
+            except Exception as e:
+                ctx.fail("oracle", "solvegrad:nested-operands-of-one-class:exception", {"expression": shape_name, "method": meth}, repr(e)[:200], "gradients")
+                continue
+            Xr = torch.linalg.solve(dense(), Bv)
+            ref = torch.autograd.grad((Xr * Xr).sum(), ws)
+            ctx.count(("nested-sum-names", shape_name, meth), nontrivial=True)
+            for i, (a_, r_) in enumerate(zip(got, ref)):
+                if a_ is None or not torch.allclose(a_, r_, rtol=1e-6, atol=1e-8):
+                    ctx.fail("oracle", "solvegrad:nested-operands-of-one-class:p%d" % (i + 1), {"expression": shape_name, "method": meth},
+                             None if a_ is None else float((a_ - r_).abs().max()), "the gradient w.r.t. every operand's tensor")
+                    break
+
+
+def substituted_forward_probe(ctx):
+    """the forward solve runs while the operator temporarily holds OTHER tensors (with A.uselinopparams(W): ..., as xitorch's own
+    functionals do), or the operator object is given another matrix between the forward call and the backward pass: the backward
+    pass differentiates the system that was SOLVED (round-4 seed C02/10: the adjoint operator taken from the operator's current
+    contents instead of the saved parameters)"""
+    import xitorch as xt
+    from xitorch.linalg import solve
+    g = torch.Generator().manual_seed(ctx.seed + 131)
+    n = 4
+    for meth in ("custom_exactsolve", "bicgstab"):
+        for scenario in ("uselinopparams", "matrix-reassigned"):
+            W0 = (0.3 * torch.randn(n, n, dtype=torch.float64, generator=g) + 2 * torch.eye(n, dtype=torch.float64))
+            W = (0.3 * torch.randn(n, n, dtype=torch.float64, generator=g) + 3 * torch.eye(n, dtype=torch.float64)).requires_grad_()
+            Bv = torch.randn(n, 2, dtype=torch.float64, generator=g).requires_grad_()
+            kw = dict(method=meth, bck_options=dict(method=meth))
+            if meth == "bicgstab":
+                kw.update(rtol=1e-13, atol=1e-15)
+                kw["bck_options"].update(rtol=1e-13, atol=1e-15)
+            try:
+                with warnings.catch_warnings():
+                    warnings.simplefilter("ignore")
+                    if scenario == "uselinopparams":
+                        op = xt.LinearOperator.m(W0.clone(), is_hermitian=False)
+                        with op.uselinopparams(W):
+                            X = solve(op, Bv, **kw)
+                    else:
+                        op = xt.LinearOperator.m(W, is_hermitian=False)
+                        X = solve(op, Bv, **kw)
+                        op.mat = W0.clone()
+                    gW, gB = torch.autograd.grad((X * X).sum(), (W, Bv))
+            except Exception as e:
+                ctx.fail("oracle", "solvegrad:forward-under-substitution:exception", {"scenario": scenario, "method": meth}, repr(e)[:200], "gradients")
+                continue
+            Xr = torch.linalg.solve(W, Bv)
+            rW, rB = torch.autograd.grad((Xr * Xr).sum(), (W, Bv))
+            ctx.count(("forward-under-substitution", scenario, meth), nontrivial=True)
+            if not torch.allclose(gW, rW, rtol=1e-6, atol=1e-8) or not torch.allclose(gB, rB, rtol=1e-6, atol=1e-8):
+                ctx.fail("oracle", "solvegrad:forward-under-substitution:%s" % scenario, {"scenario": scenario, "method": meth},
+                         {"max_diff_W": float((gW - rW).abs().max()), "max_diff_B": float((gB - rB).abs().max())},
+                         "the gradient of the system that was solved")
 
 
 def backward_options_probe(ctx):
